@@ -132,6 +132,28 @@ func genTables() {
 		}
 		l.f("def %s : List String := %s\n\n", nm, leanStrList(gc))
 	}
+	// object names in the cloud back ends: every assignment to baseKey and every return expression
+	for _, it := range []struct{ rel, name, out string }{
+		{"cache/s3proxy/s3proxy.go", "objectKeyV2", "s3_objectKeyV2"},
+		{"cache/s3proxy/s3proxy.go", "objectKeyV1", "s3_objectKeyV1"},
+		{"cache/azblobproxy/azblobproxy.go", "objectKeyV2", "azblob_objectKeyV2"},
+		{"cache/azblobproxy/azblobproxy.go", "objectKeyV1", "azblob_objectKeyV1"},
+	} {
+		fd := findFunc(it.rel, "", it.name)
+		if fd == nil {
+			continue
+		}
+		var conds []string
+		ifConds(fd.Body, 0, &conds)
+		var assigns []string
+		ast.Inspect(fd.Body, func(n ast.Node) bool {
+			if as, ok := n.(*ast.AssignStmt); ok && len(as.Lhs) == 1 && len(as.Rhs) == 1 {
+				assigns = append(assigns, exprStr(as.Lhs[0])+" = "+exprStr(as.Rhs[0]))
+			}
+			return true
+		})
+		l.f("def %s : List String := %s\n\n", it.out, leanStrList(append(append(conds, assigns...), returnExprs(fd)...)))
+	}
 	// regular expressions (MustCompile literals) per file
 	for _, it := range []struct{ rel, name string }{
 		{"cache/disk/load.go", "load_regexps"},
